@@ -250,6 +250,15 @@ fn exec(sc: &Scenario) -> Report {
                 }
                 "reset_eta" => call(|| pb.reset_eta()),
                 "reset_elapsed" => call(|| pb.reset_elapsed()),
+                // the style is taken from the bar, given another template and put back (the custom
+                // keys registered with it stay registered, also while a template does not show
+                // them; taking a copy of the style is no reset and no tick)
+                "restyle" => call(|| match a % 4 {
+                    0 => pb.set_style(pb.style().template("<{pos}>{obs}").unwrap()),
+                    1 => pb.set_style(pb.style().template("{pos}").unwrap().template("<{pos}>{obs}").unwrap()),
+                    2 => pb.set_style(pb.style().template("<{pos}>").unwrap()),
+                    _ => drop(pb.style()),
+                }),
                 "finish" => {
                     finished = true;
                     call(|| apply_finish(&pb, a, op.s0()))
@@ -497,7 +506,7 @@ impl Check for C11 {
         "C11"
     }
     fn rule_text(&self) -> String {
-        "A random history (inc/set_position/update with positions and lengths including 0, len < pos, unknown length, u64::MAX and neighbours; ticks; messages and prefixes; reset/reset_eta/reset_elapsed; every finish variant; clock gaps from 1 ms to hours, >= 1 ms between position calls so that the tick count is determined) is followed by a frozen virtual instant at which, for each of 25 documented keys (spinner, prefix, msg, pos, human_pos, len, human_len, percent, percent_precise, bytes family, elapsed*, per_sec, *_bytes_per_sec, eta*, duration*), a template <{key}> is set, a forced draw is captured from the simulated terminal and compared with the getter value pushed through the public formatter the docs name (percent: within rounding of 100*pos/len clamped; spinner: style.get_tick_str(tick count) / final tick string once finished; missing length renders as the position; the tick strings come from tick_strings with 2..11 entries, tick_chars, or the defaults, and the expected one is picked from the list the style was built with, not through the library's getter). Then three templates with 2..5 keys each (<{k1}|{k2}|..>) are drawn at the same instant and every field must show its own value in template order. One bar in four is a member of a MultiProgress; the bar is made by with_draw_target, by new()/no_length() or by new_spinner() followed by set_draw_target. The ProgressState handed to a custom key at each draw must agree with the getters, the tracker must be ticked with the bar (in one run out of four also by a steady ticker left running for six intervals) and reset exactly as often as the bar, with the bar's state after the reset. Non-trivial: history of >= 2 calls. Distinct = distinct scenario hash.".into()
+        "A random history (inc/set_position/update with positions and lengths including 0, len < pos, unknown length, u64::MAX and neighbours; ticks; messages and prefixes; reset/reset_eta/reset_elapsed; the style taken from the bar with style(), given another template (with or without the custom key, once or twice) and put back; every finish variant; clock gaps from 1 ms to hours, >= 1 ms between position calls so that the tick count is determined) is followed by a frozen virtual instant at which, for each of 25 documented keys (spinner, prefix, msg, pos, human_pos, len, human_len, percent, percent_precise, bytes family, elapsed*, per_sec, *_bytes_per_sec, eta*, duration*), a template <{key}> is set, a forced draw is captured from the simulated terminal and compared with the getter value pushed through the public formatter the docs name (percent: within rounding of 100*pos/len clamped; spinner: style.get_tick_str(tick count) / final tick string once finished; missing length renders as the position; the tick strings come from tick_strings with 2..11 entries, tick_chars, or the defaults, and the expected one is picked from the list the style was built with, not through the library's getter). Then three templates with 2..5 keys each (<{k1}|{k2}|..>) are drawn at the same instant and every field must show its own value in template order. One bar in four is a member of a MultiProgress; the bar is made by with_draw_target, by new()/no_length() or by new_spinner() followed by set_draw_target. The ProgressState handed to a custom key at each draw must agree with the getters, the tracker must be ticked with the bar (in one run out of four also by a steady ticker left running for six intervals) and reset exactly as often as the bar, with the bar's state after the reset. Non-trivial: history of >= 2 calls. Distinct = distinct scenario hash.".into()
     }
     fn assumptions(&self) -> Vec<String> {
         vec![
@@ -526,7 +535,7 @@ impl Check for C11 {
         let mut ops = vec![];
         for _ in 0..n {
             let a = if rng.chance(1, 2) { boundary_u64(rng) } else { rng.below(5000) };
-            ops.push(match rng.weighted(&[6, 8, 5, 6, 3, 4, 1, 4, 3, 1, 1, 1, 2]) {
+            ops.push(match rng.weighted(&[6, 8, 5, 6, 3, 4, 1, 4, 3, 1, 1, 1, 2, 3]) {
                 0 => Op::new("advance").n(*rng.pick(&[1_000_000, 999_000_000, 1_000_000_000, 61_000_000_000, 3_600_000_000_000, 90_000_000_000_000])),
                 1 => Op::new("inc").n(a),
                 2 => Op::new("set_position").n(a),
@@ -539,6 +548,7 @@ impl Check for C11 {
                 9 => Op::new("reset"),
                 10 => Op::new("reset_eta"),
                 11 => Op::new("reset_elapsed"),
+                13 => Op::new("restyle").n(rng.below(4)),
                 _ => Op::new("finish").n(rng.below(5)).s("final message"),
             });
         }
